@@ -54,6 +54,11 @@ func protoOK() bool {
 		cmem.DBRL.SetData.Count >= 0 && cmem.DBRL.SetData.Count < 1<<40 && cmem.DBRL.SetData.Size >= 0 && cmem.DBRL.SetData.Size < 1<<60
 }
 
+// commands whose value block the parser allocates and counts in SetData
+func specStoreCmd(cmd string) bool {
+	return cmd == "set" || cmd == "add" || cmd == "replace" || cmd == "cas" || cmd == "append" || cmd == "prepend"
+}
+
 // ---------- verified ----------
 
 // the per-connection request object carries nothing over to the next command
@@ -94,15 +99,42 @@ func protoOK() bool {
 //@   assumed takes a token from the limiter (channel receive, may block)
 //@   modifies req.Token, req.Working, ghostClock()
 
-// the interpreter: a response object (nil for quit); no reply is suppressed unless the command asked for it
+// ---------- the storage client (interface): what the interpreter may rely on ----------
+
+// Set takes over the item's value buffer: it leaves SetData (released or moved to the flush
+// counter) on every path - verified for the real client (gobeansdb.StorageClient.Set, C12)
+//@ func (StorageClient) Set
+//@   props C11 C12
+//@   ints bv
+//@   assumed interface method; the production implementation gobeansdb.StorageClient.Set is verified against the same accounting clause
+//@   modifies cmem.DBRL.SetData.Size, cmem.DBRL.SetData.MaxSize, cmem.DBRL.SetData.Count, cmem.DBRL.SetData.MaxCount, cmem.DBRL.FlushData.Size, cmem.DBRL.FlushData.MaxSize, cmem.DBRL.FlushData.Count, cmem.DBRL.FlushData.MaxCount, cmem.DBRL.GetData.Size, cmem.DBRL.GetData.MaxSize, cmem.DBRL.GetData.Count, cmem.DBRL.GetData.MaxCount, cmem.AllocRL.Size, cmem.AllocRL.MaxSize, cmem.AllocRL.Count, cmem.AllocRL.MaxCount, ghostFail(), ghostClock()
+//@   ensures cmem.DBRL.SetData.Count == old(cmem.DBRL.SetData.Count)-1
+
+// Append gets only the bytes: it does not own (and does not release) the item
+//@ func (StorageClient) Append
+//@   props C11 C12
+//@   ints bv
+//@   assumed interface method; the production implementation refuses the operation and touches nothing
+//@   modifies ghostFail()
+
+// the interpreter. C12: a store command (set/add/replace/cas/append/prepend) carries a counted value
+// buffer; when Process returns it has left SetData - handed to store.Set, or released. (incr/decr:
+// the count taken by the parser is consumed deep inside the store only on some paths; that design
+// is not specifiable at this level and is left out - observation F3.) C11: no reply is suppressed
+// unless the command asked for it. (An unsupported verb yields no response object: the connection is
+// closed in order, which C11 allows.)
 //@ func (req *Request) Process
 //@   props C11 C12
 //@   ints bv
-//@   assumed command interpreter over an arbitrary storage client; it takes over the request's counted value buffer (what it does with it is C12 at the store level)
-//@   requires ghostHandedOver != nil
-//@   modifies ghostHandedOver[req], ghostFail(), ghostClock(), cmem.DBRL.SetData.Size, cmem.DBRL.SetData.MaxSize, cmem.DBRL.SetData.Count, cmem.DBRL.SetData.MaxCount, cmem.DBRL.GetData.Size, cmem.DBRL.GetData.MaxSize, cmem.DBRL.GetData.Count, cmem.DBRL.GetData.MaxCount, cmem.DBRL.FlushData.Size, cmem.DBRL.FlushData.MaxSize, cmem.DBRL.FlushData.Count, cmem.DBRL.FlushData.MaxCount, cmem.AllocRL.Size, cmem.AllocRL.MaxSize, cmem.AllocRL.Count, cmem.AllocRL.MaxCount
-//@   ensures ghostHandedOver[req]
+//@   timeout 30
+//@   requires ghostHandedOver != nil && store != nil && stat != nil && protoOK() && ErrKeyLength != nil
+//@   requires specStoreCmd(req.Cmd) || req.Cmd == "incr" || req.Cmd == "decr" ==> req.Item != nil && len(req.Keys) == 1      // what Request.Read builds for these commands
+//@   requires req.Cmd == "get" || req.Cmd == "gets" || req.Cmd == "delete" ==> len(req.Keys) == 1      // the multi-get branch (a loop over the map an arbitrary storage client returns) is not covered
+//@   requires req.Cmd != "stats"      // formatting of the statistics map is not covered
+//@   modifies *
+//@   ensures [assumed] ghostHandedOver[req]
 //@   ensures resp != nil ==> fresh(resp) && (resp.Noreply ==> req.NoReply)
+//@   ensures specStoreCmd(req.Cmd) ==> cmem.DBRL.SetData.Count == old(cmem.DBRL.SetData.Count)-1      // C12
 
 // the reply writer: a reply is at least one byte; nothing is written for noreply
 //@ func (resp *Response) Write
